@@ -12,11 +12,12 @@ variable {F : Type} [FloatOps F] [WireLaws F]
 
 /-- what the round trip of one value establishes -/
 def RT (dt : DType F) (v : PVal F) : Prop :=
-  ∃ j v', exportValue dt v = .ok j ∧ KindOK dt j ∧ StrictJ j ∧ j ≠ .null ∧ importValue dt j = .ok v' ∧ pyEq v' v = true
+  ∃ j v', exportValue dt v = .ok j ∧ KindOK dt j ∧ StrictJ j ∧ j ≠ .null ∧ importValue dt j = .ok v' ∧ pyEq v' v = true ∧
+    (Canon v → v' = v)
 
 def RTMember (ms : List (String × DType F)) (k : String) (v : PVal F) : Prop :=
   ∃ j v', exportMember ms k v = some (.ok j) ∧ KindMember ms k j ∧ StrictJ j ∧ j ≠ .null ∧
-    importMember ms k j = some (.ok v') ∧ pyEq v' v = true
+    importMember ms k j = some (.ok v') ∧ Back v' v
 
 theorem memberIn_key {G : F → F → Prop} : ∀ (ms : List (String × DType F)) (k : String) (v : PVal F),
     MemberInG G ms k v → k ∈ ms.map (·.1) ∧ v ≠ .none
@@ -30,59 +31,132 @@ theorem memberIn_key {G : F → F → Prop} : ∀ (ms : List (String × DType F)
     · have := memberIn_key rest k v h
       exact ⟨by simp [this.1], this.2⟩
 
+theorem sendable_none (dt : DType F) : ¬ Sendable dt .none := by
+  cases dt <;> simp [Sendable, InSetG]
+
+theorem sendableMember_key : ∀ (ms : List (String × DType F)) (k : String) (v : PVal F),
+    SendableMember ms k v → k ∈ ms.map (·.1) ∧ v ≠ .none
+  | [], _, _, h => by simp [SendableMember] at h
+  | (k', t) :: rest, k, v, h => by
+    simp only [SendableMember] at h
+    split at h
+    · rename_i e
+      subst e
+      exact ⟨by simp, fun e => sendable_none t (e ▸ h)⟩
+    · have := sendableMember_key rest k v h
+      exact ⟨by simp [this.1], this.2⟩
+
+/-! every valid value of a well-formed type is sendable -/
 mutual
-theorem wire_core : ∀ (dt : DType F) (v : PVal F), dt.WF → Valid dt v → B64Law → RT dt v
+theorem valid_sendable : ∀ (dt : DType F) (v : PVal F), dt.WF → Valid dt v → Sendable dt v
+  | .double min max ar rr, v, hwf, hv => by
+    cases v <;> simp only [Valid, InSetG] at hv <;> try exact hv.elim
+    case float x => simpa [Sendable] using double_finite hwf hv
+  | .scaled scale min max ar rr, v, hwf, hv => by
+    cases v <;> simp only [Valid, InSetG] at hv <;> try exact hv.elim
+    case float x => simpa [Sendable] using And.intro hv.1 (between_notNaN hv.2)
+  | .int min max, v, _, hv => by simp only [Sendable]; exact hv
+  | .bool, v, _, hv => by simp only [Sendable]; exact hv
+  | .enum ms, v, _, hv => by simp only [Sendable]; exact hv
+  | .string a b c, v, _, hv => by simp only [Sendable]; exact hv
+  | .blob a b, v, _, hv => by simp only [Sendable]; exact hv
+  | .array elem lo hi, v, hwf, hv => by
+    cases v <;> simp only [Valid, InSetG] at hv <;> try exact hv.elim
+    case tuple vs =>
+      simp only [DType.WF] at hwf
+      simp only [Sendable]
+      exact ⟨fun x hx => valid_sendable elem x hwf.1 (hv.1 x hx), hv.2.1, hv.2.2⟩
+  | .tuple elems, v, hwf, hv => by
+    cases v <;> simp only [Valid, InSetG] at hv <;> try exact hv.elim
+    case tuple vs =>
+      simp only [DType.WF] at hwf
+      simp only [Sendable]
+      exact valid_sendable_zip elems vs hwf.2 hv
+  | .struct ms opt cl, v, hwf, hv => by
+    cases v <;> simp only [Valid, InSetG] at hv <;> try exact hv.elim
+    case dict fields =>
+      simp only [DType.WF] at hwf
+      simp only [Sendable]
+      exact ⟨fun kv hkv => valid_sendable_member ms kv.1 kv.2 hwf.2.2.2 (hv.1 kv hkv), hv.2.1, hv.2.2⟩
+theorem valid_sendable_zip : ∀ (ts : List (DType F)) (vs : List (PVal F)), WFList ts → ZipInG SnapFix ts vs → SendableZip ts vs
+  | [], [], _, _ => by simp [SendableZip]
+  | t :: ts, v :: vs, hwf, hz => by
+    simp only [WFList] at hwf
+    simp only [ZipInG] at hz
+    simp only [SendableZip]
+    exact ⟨valid_sendable t v hwf.1 hz.1, valid_sendable_zip ts vs hwf.2 hz.2⟩
+  | [], _ :: _, _, hz => by simp [ZipInG] at hz
+  | _ :: _, [], _, hz => by simp [ZipInG] at hz
+theorem valid_sendable_member : ∀ (ms : List (String × DType F)) (k : String) (v : PVal F), WFFields ms →
+    MemberInG SnapFix ms k v → SendableMember ms k v
+  | [], _, _, _, h => by simp [MemberInG] at h
+  | (k', t) :: rest, k, v, hwf, h => by
+    simp only [WFFields] at hwf
+    simp only [MemberInG] at h
+    simp only [SendableMember]
+    by_cases e : k' = k
+    · simp only [e, if_true] at h ⊢
+      exact valid_sendable t v hwf.1 h
+    · simp only [e, if_false] at h ⊢
+      exact valid_sendable_member rest k v hwf.2 h
+end
+
+mutual
+theorem send_core : ∀ (dt : DType F) (v : PVal F), dt.WF → Sendable dt v → B64Law → RT dt v
   | .double min max ar rr, v, hwf, hv, _ => by
-    cases v <;> simp only [Valid, InSetG] at hv <;> try exact hv.elim
+    cases v <;> simp only [Sendable] at hv <;> try exact hv.elim
     case float x =>
-      obtain ⟨h1, h2, h3, h4⟩ := double_rt hwf hv
-      exact ⟨.num x, _, h1, by simp [KindOK], by simpa [StrictJ] using h2, by simp, h3, h4⟩
+      obtain ⟨h1, h2, h3, h4⟩ := double_rt (min := min) (max := max) (ar := ar) (rr := rr) hv
+      refine ⟨.num x, _, h1, by simp [KindOK], by simpa [StrictJ] using h2, by simp, h3, h4, fun hc => ?_⟩
+      simp only [Canon] at hc
+      rw [(WireLaws.same_iff _ _).mp hc]
   | .int min max, v, hwf, hv, _ => by
-    cases v <;> simp only [Valid, InSetG] at hv <;> try exact hv.elim
+    cases v <;> simp only [Sendable, InSetG] at hv <;> try exact hv.elim
     case int i =>
       obtain ⟨h3, h4⟩ := int_rt (F := F) hwf hv
-      exact ⟨.int i, _, rfl, by simp [KindOK], by simp [StrictJ], by simp, h3, h4⟩
+      exact ⟨.int i, _, rfl, by simp [KindOK], by simp [StrictJ], by simp, h3, h4, fun _ => rfl⟩
   | .scaled scale min max ar rr, v, hwf, hv, _ => by
-    cases v <;> simp only [Valid, InSetG] at hv <;> try exact hv.elim
+    cases v <;> simp only [Sendable] at hv <;> try exact hv.elim
     case float x =>
-      obtain ⟨k, h1, h3, h4⟩ := scaled_rt (ar := ar) (rr := rr) hv
-      exact ⟨.int k, _, h1, by simp [KindOK], by simp [StrictJ], by simp, h3, h4⟩
+      obtain ⟨k, h1, h3, h4⟩ := scaled_rt (min := min) (max := max) (ar := ar) (rr := rr) hv
+      exact ⟨.int k, _, h1, by simp [KindOK], by simp [StrictJ], by simp, h3, h4, fun _ => rfl⟩
   | .bool, v, hwf, hv, _ => by
-    cases v <;> simp only [Valid, InSetG] at hv <;> try exact hv.elim
+    cases v <;> simp only [Sendable, InSetG] at hv <;> try exact hv.elim
     case bool b =>
-      refine ⟨.bool b, .bool b, ?_, by simp [KindOK], by simp [StrictJ], by simp, ?_, ?_⟩
+      refine ⟨.bool b, .bool b, ?_, by simp [KindOK], by simp [StrictJ], by simp, ?_, ?_, fun _ => rfl⟩
       · simp [exportValue, boolExport, boolCall, Except.map]
       · simp [importValue, call, conv, PVal.ofJVal, boolCall, Except.map]
       · cases b <;> simp [pyEq, PVal.numeric?, PVal.numEq]
   | .enum ms, v, hwf, hv, _ => by
-    cases v <;> simp only [Valid, InSetG] at hv <;> try exact hv.elim
+    cases v <;> simp only [Sendable, InSetG] at hv <;> try exact hv.elim
     case enum n k =>
       obtain ⟨h1, h3, h4⟩ := enum_rt (F := F) hwf hv
-      exact ⟨.int k, _, h1, by simp [KindOK], by simp [StrictJ], by simp, h3, h4⟩
+      exact ⟨.int k, _, h1, by simp [KindOK], by simp [StrictJ], by simp, h3, h4, fun _ => rfl⟩
   | .string minc maxc utf8, v, hwf, hv, _ => by
-    cases v <;> simp only [Valid, InSetG] at hv <;> try exact hv.elim
+    cases v <;> simp only [Sendable, InSetG] at hv <;> try exact hv.elim
     case str s =>
       have h := string_rt (F := F) hv
-      refine ⟨.str s, .str s, rfl, by simp [KindOK], by simp [StrictJ], by simp, ?_, by simp [pyEq]⟩
+      refine ⟨.str s, .str s, rfl, by simp [KindOK], by simp [StrictJ], by simp, ?_, by simp [pyEq], fun _ => rfl⟩
       simp [importValue, call, conv, PVal.ofJVal, h, Except.map]
   | .blob minb maxb, v, hwf, hv, hb => by
-    cases v <;> simp only [Valid, InSetG] at hv <;> try exact hv.elim
+    cases v <;> simp only [Sendable, InSetG] at hv <;> try exact hv.elim
     case bytes b =>
       have hd := hb b
-      refine ⟨.str (Base64.encode b), .bytes b, rfl, by simp [KindOK, hd], by simp [StrictJ], by simp, ?_, by simp [pyEq]⟩
+      refine ⟨.str (Base64.encode b), .bytes b, rfl, by simp [KindOK, hd], by simp [StrictJ], by simp, ?_, by simp [pyEq],
+        fun _ => rfl⟩
       simp [importValue, blobImport, hd, Except.map]
   | .array elem lo hi, v, hwf, hv, hb => by
-    cases v <;> simp only [Valid, InSetG] at hv <;> try exact hv.elim
+    cases v <;> simp only [Sendable] at hv <;> try exact hv.elim
     case tuple vs =>
       simp only [DType.WF] at hwf
       obtain ⟨hall, hlo, hhi⟩ := hv
-      obtain ⟨js, vs', hfs, hps, hss, hl, hgs, hes⟩ :=
+      obtain ⟨js, vs', hfs, hps, hss, hl, hgs, hes, hxs⟩ :=
         mapExport_rt (f := exportValue elem) (g := importValue elem) (P := KindOK elem) vs (fun x hx => by
-          obtain ⟨j, v', a, b, c, _, d, e⟩ := wire_core elem x hwf.1 (hall x hx) hb
-          exact ⟨j, v', a, b, c, d, e⟩)
+          obtain ⟨j, v', a, b, c, _, d, e, q⟩ := send_core elem x hwf.1 (hall x hx) hb
+          exact ⟨j, v', a, b, c, d, e, q⟩)
       have h1 : ¬ vs.length < lo := by omega
       have h2 : ¬ vs.length > hi := by omega
-      refine ⟨.arr js, .tuple vs', ?_, ?_, ?_, by simp, ?_, ?_⟩
+      refine ⟨.arr js, .tuple vs', ?_, ?_, ?_, by simp, ?_, ?_, ?_⟩
       · simp [exportValue, seqItems?, h1, h2, hfs, Except.map]
       · simpa [KindOK] using hps
       · simpa [StrictJ] using hss
@@ -90,52 +164,62 @@ theorem wire_core : ∀ (dt : DType F) (v : PVal F), dt.WF → Valid dt v → B6
         have h2' : ¬ js.length > hi := by omega
         simp [importValue, h1', h2', hgs, Except.map]
       · simp [pyEq, hes]
+      · intro hc
+        simp only [Canon] at hc
+        rw [hxs hc]
   | .tuple elems, v, hwf, hv, hb => by
-    cases v <;> simp only [Valid, InSetG] at hv <;> try exact hv.elim
+    cases v <;> simp only [Sendable] at hv <;> try exact hv.elim
     case tuple vs =>
       simp only [DType.WF] at hwf
-      obtain ⟨js, vs', hfs, hps, hss, hl, hl2, hgs, hes⟩ := wire_core_zip elems vs hwf.2 hv hb
-      refine ⟨.arr js, .tuple vs', ?_, ?_, ?_, by simp, ?_, ?_⟩
+      obtain ⟨js, vs', hfs, hps, hss, hl, hl2, hgs, hes, hxs⟩ := send_core_zip elems vs hwf.2 hv hb
+      refine ⟨.arr js, .tuple vs', ?_, ?_, ?_, by simp, ?_, ?_, ?_⟩
       · simp [exportValue, seqItems?, hl2, hfs, Except.map]
       · simpa [KindOK] using hps
       · simpa [StrictJ] using hss
       · have : js.length = elems.length := by omega
         simp [importValue, this, hgs, Except.map]
       · simp [pyEq, hes]
+      · intro hc
+        simp only [Canon] at hc
+        rw [hxs hc]
   | .struct ms opt cl, v, hwf, hv, hb => by
-    cases v <;> simp only [Valid, InSetG] at hv <;> try exact hv.elim
+    cases v <;> simp only [Sendable] at hv <;> try exact hv.elim
     case dict fields =>
       simp only [DType.WF] at hwf
       obtain ⟨hmem, hnd, hmand⟩ := hv
       obtain ⟨jfs, fs', hfs, hps, hss, hnn, hkeys, hgs, hrel⟩ :=
-        mapFieldsExport_rt (f := exportMember ms) (g := importMember ms) (P := KindMember ms) fields [] []
-          (fun kv hkv => wire_core_member ms kv.1 kv.2 hwf.2.2.2 (hmem kv hkv) hb) hnd (by simp) (by simp [RelFields])
+        mapFieldsExport_rt (f := exportMember ms) (g := importMember ms) (P := KindMember ms) (R := Back) fields [] []
+          (fun kv hkv => send_core_member ms kv.1 kv.2 hwf.2.2.2 (hmem kv hkv) hb) hnd (by simp) (by simp [RelFields])
       have hc1 : structCheck (ms.map (·.1)) opt true fields = true :=
-        structCheck_ok _ _ _ (fun kv hkv => (memberIn_key ms kv.1 kv.2 (hmem kv hkv)).1)
-          (fun kv hkv => (memberIn_key ms kv.1 kv.2 (hmem kv hkv)).2) hmand
+        structCheck_ok _ _ _ (fun kv hkv => (sendableMember_key ms kv.1 kv.2 (hmem kv hkv)).1)
+          (fun kv hkv => (sendableMember_key ms kv.1 kv.2 (hmem kv hkv)).2) hmand
       have hk2 : (PVal.ofJVal.ofJFields jfs).map (·.1) = fields.map (·.1) := by rw [ofJFields_keys, hkeys]
       have hc2 : structCheck (ms.map (·.1)) opt true (PVal.ofJVal.ofJFields jfs) = true := by
         refine structCheck_ok _ _ _ (fun kv hkv => ?_) (ofJFields_noNone jfs hnn) (by rw [hk2]; exact hmand)
         have : kv.1 ∈ fields.map (·.1) := by rw [← hk2]; exact List.mem_map.mpr ⟨kv, hkv, rfl⟩
         obtain ⟨kv', hkv', he⟩ := List.mem_map.mp this
         rw [← he]
-        exact (memberIn_key ms kv'.1 kv'.2 (hmem kv' hkv')).1
-      refine ⟨.obj jfs, .dict fs', ?_, ?_, ?_, by simp, ?_, ?_⟩
+        exact (sendableMember_key ms kv'.1 kv'.2 (hmem kv' hkv')).1
+      simp only [List.nil_append] at hrel
+      refine ⟨.obj jfs, .dict fs', ?_, ?_, ?_, by simp, ?_, ?_, ?_⟩
       · simp [exportValue, hc1, hfs, Except.map]
       · simpa [KindOK] using hps
       · simpa [StrictJ] using hss
       · simp [importValue, hc2, hgs, Except.map]
-      · exact pyEq_dict_of_rel fs' fields (by simpa using hrel) hnd
-theorem wire_core_zip : ∀ (ts : List (DType F)) (vs : List (PVal F)), WFList ts → ZipInG SnapFix ts vs → B64Law →
+      · exact pyEq_dict_of_rel fs' fields (relFields_mono (fun a b h => h.1) fs' fields hrel) hnd
+      · intro hc
+        simp only [Canon] at hc
+        rw [relFields_exact fs' fields hrel hc]
+theorem send_core_zip : ∀ (ts : List (DType F)) (vs : List (PVal F)), WFList ts → SendableZip ts vs → B64Law →
     ∃ js vs', exportTuple ts vs = .ok js ∧ KindZip ts js ∧ StrictList js ∧ js.length = vs.length ∧
-      vs.length = ts.length ∧ importTuple ts js = .ok vs' ∧ pyEqList vs' vs = true
-  | [], [], _, _, _ => ⟨[], [], rfl, by simp [KindZip], by simp [StrictList], rfl, rfl, rfl, by simp [pyEqList]⟩
+      vs.length = ts.length ∧ importTuple ts js = .ok vs' ∧ pyEqList vs' vs = true ∧ (CanonList vs → vs' = vs)
+  | [], [], _, _, _ => ⟨[], [], rfl, by simp [KindZip], by simp [StrictList], rfl, rfl, rfl, by simp [pyEqList], fun _ => rfl⟩
   | t :: ts, v :: vs, hwf, hz, hb => by
     simp only [WFList] at hwf
-    simp only [ZipInG] at hz
-    obtain ⟨j, v', hf, hp, hs, _, hg, he⟩ := wire_core t v hwf.1 hz.1 hb
-    obtain ⟨js, vs', hfs, hps, hss, hl, hl2, hgs, hes⟩ := wire_core_zip ts vs hwf.2 hz.2 hb
-    refine ⟨j :: js, v' :: vs', ?_, ?_, ?_, ?_, ?_, ?_, ?_⟩
+    simp only [SendableZip] at hz
+    obtain ⟨j, v', hf, hp, hs, _, hg, he, hx⟩ := send_core t v hwf.1 hz.1 hb
+    obtain ⟨js, vs', hfs, hps, hss, hl, hl2, hgs, hes, hxs⟩ := send_core_zip ts vs hwf.2 hz.2 hb
+    refine ⟨j :: js, v' :: vs', ?_, ?_, ?_, ?_, ?_, ?_, ?_, ?_⟩
     · simp [exportTuple, hf, hfs]
     · simp [KindZip, hp, hps]
     · simp [StrictList, hs, hss]
@@ -143,23 +227,30 @@ theorem wire_core_zip : ∀ (ts : List (DType F)) (vs : List (PVal F)), WFList t
     · simp [hl2]
     · simp [importTuple, hg, hgs]
     · simp [pyEqList, he, hes]
-  | [], _ :: _, _, hz, _ => by simp [ZipInG] at hz
-  | _ :: _, [], _, hz, _ => by simp [ZipInG] at hz
-theorem wire_core_member : ∀ (ms : List (String × DType F)) (k : String) (v : PVal F), WFFields ms →
-    MemberInG SnapFix ms k v → B64Law →
+    · intro hc
+      simp only [CanonList] at hc
+      rw [hx hc.1, hxs hc.2]
+  | [], _ :: _, _, hz, _ => by simp [SendableZip] at hz
+  | _ :: _, [], _, hz, _ => by simp [SendableZip] at hz
+theorem send_core_member : ∀ (ms : List (String × DType F)) (k : String) (v : PVal F), WFFields ms →
+    SendableMember ms k v → B64Law →
     ∃ j v', exportMember ms k v = some (.ok j) ∧ KindMember ms k j ∧ StrictJ j ∧ j ≠ .null ∧
-      importMember ms k j = some (.ok v') ∧ pyEq v' v = true
-  | [], _, _, _, h, _ => by simp [MemberInG] at h
+      importMember ms k j = some (.ok v') ∧ Back v' v
+  | [], _, _, _, h, _ => by simp [SendableMember] at h
   | (k', t) :: rest, k, v, hwf, h, hb => by
     simp only [WFFields] at hwf
-    simp only [MemberInG] at h
+    simp only [SendableMember] at h
     by_cases e : k' = k
     · simp only [e, if_true] at h
-      obtain ⟨j, v', hf, hp, hs, hn, hg, he⟩ := wire_core t v hwf.1 h hb
-      exact ⟨j, v', by simp [exportMember, e, hf], by simp [KindMember, e, hp], hs, hn, by simp [importMember, e, hg], he⟩
+      obtain ⟨j, v', hf, hp, hs, hn, hg, he, hx⟩ := send_core t v hwf.1 h hb
+      exact ⟨j, v', by simp [exportMember, e, hf], by simp [KindMember, e, hp], hs, hn, by simp [importMember, e, hg], he, hx⟩
     · simp only [e, if_false] at h
-      obtain ⟨j, v', hf, hp, hs, hn, hg, he⟩ := wire_core_member rest k v hwf.2 h hb
+      obtain ⟨j, v', hf, hp, hs, hn, hg, he⟩ := send_core_member rest k v hwf.2 h hb
       exact ⟨j, v', by simp [exportMember, e, hf], by simp [KindMember, e, hp], hs, hn, by simp [importMember, e, hg], he⟩
 end
+
+/-- the wire round trip of a valid value -/
+theorem wire_core (dt : DType F) (v : PVal F) (hwf : dt.WF) (hv : Valid dt v) (hb : B64Law) : RT dt v :=
+  send_core dt v hwf (valid_sendable dt v hwf hv) hb
 
 end Frappy.Lemmas.C02
